@@ -178,3 +178,20 @@ LEMMAS['FLAT/sum'] = dict(
     vars={'rows': ('list', ('list', 'ref')), 'g': ('list', 'int')},
     hyps=[],
     goals=[('sum-over-concatenation', 'Sum(q, len(flat(rows)), g[flat(rows)[q]]) == Sum(i, len(rows), Sum(c, len(rows[i]), g[rows[i][c]]))')])
+
+# ---- C09: what the generator guarantees is what the reader needs
+LEMMAS['C09/rank-keys'] = dict(
+    vars={'pls': ('list', ('list', 'int')), 'PL': ('list', 'int'), 'n3': 'int', 'lec': ('list', ('list', 'int'))},
+    hyps=['n3 >= 0', 'len(lec) == n3',
+          'forall(y, 0, len(PL), 1 <= PL[y] and PL[y] <= n3)',
+          'forall(s, 0, len(pls), forall(x, implies(x in elems(pls[s]), 1 <= x and x <= len(PL))))',
+          # conclusion of C12/spa-compose: lecturer l lists student v iff v ranks a project of l
+          'forall(l, 0, n3, forall(v, (v in elems(lec[l])) == (1 <= v and v <= len(pls) and exists(proj, proj in elems(pls[v - 1]) and PL[proj - 1] == l + 1))))'],
+    goals=[('every-(lecturer,student)-the-reader-looks-up-is-on-that-lecturers-list',
+            'forall(s, 0, len(pls), forall(proj, implies(proj in elems(pls[s]), (s + 1) in elems(lec[PL[proj - 1] - 1]))))')])
+LEMMAS['C09/quota-order'] = dict(
+    vars={'n': 'int', 'llq': 'int', 'lt': 'int', 'luq': 'int'},
+    defs={'share': (['s', 'k'], 's // n + ite(k < s % n, 1, 0)')},
+    hyps=['n >= 1', '0 <= llq', 'llq <= lt', 'lt <= luq'],
+    uses=[('C08/spread-monotone', {'n': 'n', 'a': 'llq', 'b': 'lt'}), ('C08/spread-monotone', {'n': 'n', 'a': 'lt', 'b': 'luq'})],
+    goals=[('lower-target-upper-pointwise', 'forall(k, 0, n, 0 <= share(llq, k) and share(llq, k) <= share(lt, k) and share(lt, k) <= share(luq, k))')])
